@@ -441,7 +441,7 @@ def run(chk):
             continue
         graph_cases.append(('decoded-deep', (name, tbl, live, g), (node, {})))
     for i in range(500 if quick else 5000):
-        V, triples = gen.random_connected_graph(rng, with_numbers=(rng.random() < .3),
+        V, triples = gen.random_connected_graph(rng, with_numbers=(rng.random() < .3), numeric_concepts=True,
                                                 roles=[':ARG0', ':ARG1', ':op1', ':op2', ':op10', ':mod', ':quant'])
         # keep the instance triple of the first variable first half of the time, shuffle the rest
         if rng.random() < .5:
